@@ -565,10 +565,16 @@ func (d *Driver) RunFair(until int64, maxSteps int) bool {
 		}
 		return true
 	}
+	saved := d.MaxHeight
+	d.MaxHeight = until // nodes that are past the target do not start further rounds
+	defer func() { d.MaxHeight = saved }()
 	idle := 0
 	for i := 0; i < maxSteps; i++ {
 		if reached() {
 			return true
+		}
+		if i%40 == 39 {
+			d.Sync() // the reactors' gossip routines run all the time
 		}
 		if d.FairStep() {
 			idle = 0
